@@ -60,9 +60,9 @@ func NewHead(rootGoitPath string) (*Head, error) {
 		if ok := headRegexp.MatchString(headString); !ok {
 			return nil, ErrInvalidHead
 		}
-		headSplit := strings.Split(headString, ": ")
-		slashSplit := strings.Split(headSplit[1], "/")
-		branch := slashSplit[len(slashSplit)-1]
+		// the branch name is everything after "ref: refs/heads/": it may itself contain ": "
+		const refPrefix = "ref: refs/heads/"
+		branch := headString[strings.Index(headString, refPrefix)+len(refPrefix):]
 		head.Reference = branch
 
 		// get commit from branch
